@@ -212,7 +212,7 @@ _SAFE_BUILTINS = {
     'sum': sum, 'all': all, 'any': any, 'abs': abs, 'map': map, 'filter': filter,
     'isinstance': lambda o, s: _isinstance(o, s), 'iter': iter, 'next': next, 'divmod': divmod, 'pow': pow,
     'True': True, 'False': False, 'None': None, 'print': lambda *a, **k: None,
-    'bin': bin, 'chr': chr, 'ord': ord, 'round': round, 'float': float, 'bytes': bytes, 'bytearray': bytearray,
+    'bin': bin, 'chr': chr, 'ord': ord, 'round': round, 'float': float, 'bytes': lambda *a, **k: _bytes(*a, **k), 'bytearray': bytearray,
     'ValueError': ValueError, 'TypeError': TypeError, 'KeyError': KeyError,
     'NotImplementedError': NotImplementedError, 'AssertionError': AssertionError,
     'IndexError': IndexError,
@@ -244,6 +244,13 @@ class _SuperStub(Host):
         if name == '__init__':
             return lambda *a, **k: None
         raise AttributeError(name)
+
+
+def _bytes(*a, **k):
+    if len(a) == 1 and isinstance(a[0], Instance) and a[0]._interp is not None:
+        o = a[0]
+        return o._interp._class_attr(o._cls.mod, None, o, o._cls, '__bytes__')()
+    return bytes(*a, **k)
 
 
 _CLASS_CACHE: dict = {}
